@@ -321,6 +321,15 @@ Route(order, c, i, m, st) ==
                   [st EXCEPT !.h = Enqueue(@, n, f),
                              !.h.frag = (f :> [peer |-> m, owner |-> c, done |-> FALSE, ans |-> NoAns]) @@ @])
 Orders(S) == {p \in [1..Cardinality(S) -> S] : \A a, b \in 1..Cardinality(S) : a # b => p[a] # p[b]}
+\* The orders worth distinguishing: queuing fragments on different nodes commutes (only the order of the write
+\* signals differs, which no connection can observe) unless a deadline order is recorded (timeouts on) or the
+\* walk can stop early at an unowned slot; so nodes are visited in one fixed order and only the slots of one
+\* node are permuted.
+NodeSeq == CHOOSE f \in [1..Cardinality(Nodes) -> Nodes] : \A a, b \in 1..Cardinality(Nodes) : a # b => f[a] # f[b]
+Rank(n) == CHOOSE k \in 1..Cardinality(Nodes) : NodeSeq[k] = n
+FragOrders(S) ==
+  IF TimeoutOn \/ \E s \in S : SlotNode[s] = "none" THEN Orders(S)
+  ELSE {p \in Orders(S) : \A a, b \in 1..Cardinality(S) : a < b => Rank(SlotNode[p[a]]) <= Rank(SlotNode[p[b]])}
 
 \* OnCReact for a forwarded request whose fragments are visited in the given order (an operator with
 \* arguments on purpose: TLC must not share its value between different orders)
@@ -364,7 +373,7 @@ CbClientReadOne(c) ==
               IN /\ SetHeap(h2)
                  /\ cbuf' = [cbuf EXCEPT ![c] = IF r.k = "quit" THEN <<>> ELSE Tail(@)]
             ELSE
-              \E order \in Orders(SlotsOf(r)) :
+              \E order \in FragOrders(SlotsOf(r)) :
                 /\ SetHeap(Forward(c, i, m, m0, h0, order))
                 /\ cbuf' = [cbuf EXCEPT ![c] = Tail(@)]
        /\ seen' = IF <<"c", c, 0>> \in SeqRange(seen) THEN seen ELSE Append(seen, <<"c", c, 0>>)
